@@ -264,6 +264,21 @@ impl<'a, 'tcx> BodyWalker<'a, 'tcx> {
 					out.push_str(&v);
 				}
 			}
+		} else if let MirConst::Ty(_, ct) = c.const_ {
+			// string literals in patterns are type-level values (valtrees)
+			if let ty::Ref(_, inner, _) = ty.kind() {
+				if inner.is_str() {
+					if let Some(v) = ct.try_to_value() {
+						if let Some(bytes) = v.try_to_raw_bytes(tcx) {
+							if let Ok(s) = std::str::from_utf8(bytes) {
+								let t: String = s.chars().take(100).collect();
+								out.push_str(",\"s\":");
+								jesc(&t, out);
+							}
+						}
+					}
+				}
+			}
 		} else if let MirConst::Val(cv @ mir::ConstValue::Slice { .. }, _) = c.const_ {
 			if let ty::Ref(_, inner, _) = ty.kind() {
 				if inner.is_str() {
